@@ -2183,3 +2183,16 @@ package mcp
 //@ func cannotMakeRequests [C13]
 //@   nopanic
 //@   ensures @exactly-the-requestless-streamable-connections result <==> (typeIs(conn, *streamableServerConn) && conn.(*streamableServerConn) != nil && (conn.(*streamableServerConn).stateless || conn.(*streamableServerConn).sessionID == ""))
+
+// ClientSession.NotifyProgress (C12, converse clause; defect F30): like every other sending method, a progress
+// notification sent on a 2026-07-28 session is stamped with the per-request metadata before it is handed to the
+// transport - an unstamped one is refused by the SDK's own server, and the streamable client gives up the session.
+//@ func (*ClientSession).NotifyProgress [C12]
+//@   track usesNewProtocol as modern
+//@   track injectRequestMeta as stamp
+//@   track handleNotify as send
+//@   requires cs != nil
+//@   modifies *
+//@   ensures @a-modern-session-stamps-its-notifications calls(modern) == 1 && (callResult(modern, 1, 0) ==> calls(stamp) == 1 && callArg(stamp, 1, 0) == cs)
+//@   ensures @sent-once calls(send) == 1 && callArg(send, 1, 1) == notificationProgress
+//@   assert at call handleNotify: @stamped-before-it-is-sent calls(modern) == 1 && (callResult(modern, 1, 0) ==> calls(stamp) == 1)
